@@ -207,6 +207,17 @@ let run_T caseno tk =
   let labels = "rf" :: "heap" :: (List.init nt (fun k -> "log" ^ string_of_int k)) @ ["obs"] in
   Printf.printf "T %d %s\n" caseno (pr_transcript labels (t_threads sv ders progs))
 
+(* family L: prog ity lay pv R pat*R acc *)
+let run_L caseno tk =
+  let _prog = next_int tk in
+  let t = ity_of_nat (nat_of_int (next_int tk)) in
+  let lay = next_int tk in
+  let pv = opt_of_tok (next tk) in
+  let r = next_int tk in
+  let pat = take_n tk r (fun tk -> opt_of_tok (next tk)) in
+  let acc = next_int tk in
+  Printf.printf "L %d %s\n" caseno (pr_transcript ["sz"; "tc"] (l_layout t (nat_of_int lay) pat pv (nat_of_int acc)))
+
 (* family X: prog kind ... *)
 let run_X caseno tk =
   let _prog = next_int tk in
@@ -250,6 +261,7 @@ let () =
           | "P" -> run_P !caseno tk
           | "R" -> run_R !caseno tk
           | "T" -> run_T !caseno tk
+          | "L" -> run_L !caseno tk
           | f -> Printf.printf "%s %d unknown-family\n" f !caseno);
          incr caseno
        end
